@@ -45,6 +45,8 @@ type c17Env struct {
 }
 
 func c17New(withHeader bool) *c17Env {
+	// the response body the stub server answers with: some text or nothing at all (it is the deserializer's business
+	// what an empty body means - it must still be asked)
 	e := &c17Env{tr: &vhTransport{respBody: "RESP"}}
 	s := NewSimpleHTTPWithClientAndInterceptors(&http.Client{Transport: e.tr})
 	e.api = NewSimpleAPIWithSimpleHTTP("http://h", s)
@@ -157,6 +159,7 @@ func c17CheckRequestP(e *c17Env, ix int, method, wantRel, wantBody, wantCT strin
 
 func vh_C17_NoBody() {
 	e := c17New(true)
+	e.tr.respBody = []string{"RESP", ""}[vfChoose("response-body", 2)] // an empty body must still reach the deserializer
 	tmpl, pp, wantRel := c17Template()
 	method := "GET"
 	var mk APINoBody[c17Target]
@@ -180,7 +183,7 @@ func vh_C17_NoBody() {
 		vfAssert("one-request-per-evaluation", len(e.tr.seen) == k+1)
 		c17CheckRequest(e, k, method, wantRel, "", "")
 		vfAssert("no-error", r.Err == nil)
-		vfAssert("decoder-got-the-response-body", len(e.decBody) == k+1 && e.decBody[k] == "RESP")
+		vfAssert("decoder-got-the-response-body", len(e.decBody) == k+1 && e.decBody[k] == e.tr.respBody)
 		vfAssert("decoder-got-the-target", len(e.decTarget) == k+1 && e.decTarget[k] == interface{}(&target))
 		vfAssert("target-object", r.TargetObject == &target)
 	}
@@ -232,14 +235,15 @@ func vh_C17_Body() {
 		c17CheckRequestP(e, k, method, wantRel, wantBody, wantCT, ctor < 3 || ctor > 5, pl.V)
 		vfAssert("no-error", r.Err == nil)
 		vfAssert("target-object", r.TargetObject == &target)
-		vfAssert("decoder-got-the-response-body", len(e.decBody) == k+1 && e.decBody[k] == "RESP")
+		vfAssert("decoder-got-the-response-body", len(e.decBody) == k+1 && e.decBody[k] == e.tr.respBody)
 	}
 	vfReach("end")
 }
 
 func vh_C17_Failures() {
 	e := c17New(false)
-	fault := vfChoose("fault", 5) // serializer, transport, read, decoder(target,err), decoder(nil,err)
+	e.tr.respBody = []string{"RESP", ""}[vfChoose("response-body", 2)] // an empty body must still reach the deserializer
+	fault := vfChoose("fault", 5)                                      // serializer, transport, read, decoder(target,err), decoder(nil,err)
 	switch fault {
 	case 0:
 		e.serFail = true
